@@ -14,7 +14,8 @@ PROFILES = {
  "pool":   dict(ops={"pacq":6,"prel":5,"ppre":3,"hold":5,"tadd":2,"intr":2,"stop":1,"prio":2,"exit":1}, np=(2,4), uev=0),
  "buf":    dict(ops={"bput":6,"bget":6,"hold":4,"tadd":2,"intr":2,"stop":1,"prio":1}, np=(2,4), uev=0),
  "queue":  dict(ops={"qput":5,"qget":5,"pqput":5,"pqget":5,"pqcancel":2,"pqreprio":2,"hold":4,"tadd":2,"intr":2,"stop":1,"prio":1}, np=(2,4), uev=0),
- "cond":   dict(ops={"cwait":6,"csig":4,"setflag":5,"hold":4,"tadd":2,"intr":1,"acq":2,"rel":2,"bput":1,"bget":1,"prio":1,"stop":1}, np=(2,4), uev=1),
+ "cond":   dict(ops={"cwait":6,"csig":4,"setflag":5,"hold":4,"tadd":2,"intr":1,"acq":2,"rel":2,"bput":1,"bget":1,"prio":1,"stop":1,"ccancel":1,"cremove":1,"csub":1}, np=(2,4), uev=1),
+ "contend": dict(ops={}, np=(2,4), uev=0, contend=True),
  "end":    dict(ops={"hold":4,"acq":3,"pacq":3,"wproc":4,"stop":3,"exit":2,"start":2,"tadd":2,"intr":1,"rel":1,"bget":1,"qget":1}, np=(2,4), uev=1),
  "rec":    dict(ops={"acq":4,"rel":4,"pre":1,"pacq":3,"prel":3,"ppre":1,"bput":3,"bget":3,"qput":2,"qget":2,"pqput":2,"pqget":2,"pqcancel":1,"hold":5,"intr":1,"stop":1,"rec":0}, np=(2,3), uev=0, rec=True),
  "mix":    dict(ops={"hold":5,"tadd":2,"tcancel":1,"wproc":2,"wevent":1,"intr":2,"stop":1,"exit":1,"prio":2,"start":1,"acq":3,"rel":3,"pre":1,"pacq":3,"prel":3,"ppre":1,
@@ -50,17 +51,44 @@ def gen_instr(rng, op, np, me, caps):
     if op == "cwait": return "cwait %d" % rng.randint(0, 3)
     if op == "csig": return "csig"
     if op == "setflag": return "setflag %d %d" % (rng.randint(0, 1), rng.randint(0, 1))
+    if op in ("ccancel", "cremove"): return "%s %d" % (op, q)
+    if op == "csub": return "csub %d" % rng.randint(0, 1)
     return "nop"
+
+def contend_script(rng, np, me, caps, pkind):
+    """acquire-like call (possibly with a timeout armed or an interrupt aimed at a neighbour), hold, release-like call, repeated"""
+    kind = pkind if rng.random() < 0.85 else rng.choice(["res", "pool", "buf", "oq", "pq"])
+    code = []
+    for _ in range(rng.randint(1, 3)):
+        if rng.random() < 0.35: code.append("tadd %d %d" % (rng.choice([0, 1, 2]), rng.choice(SIGS)))
+        if rng.random() < 0.2: code.append("intr %d %d %d" % (rng.randint(1, np), rng.choice(ISIGS), rng.choice([0, 1, 5])))
+        if rng.random() < 0.1: code.append("prio %d %d" % (rng.randint(1, np), rng.randint(0, 3)))
+        if kind == "res":
+            r = 1 if rng.random() < 0.8 else rng.randint(1, caps["res"])
+            code += ["%s %d" % (rng.choice(["acq", "acq", "pre"]), r), "hold %d" % rng.choice([0, 1, 1, 2]), "rel %d" % r]
+            if rng.random() < 0.4: code.append("acq %d" % r)          # re-acquire in the instant of the release
+        elif kind == "pool":
+            n = rng.randint(1, caps["pool"])
+            code += ["%s %d" % (rng.choice(["pacq", "pacq", "ppre"]), n), "hold %d" % rng.choice([0, 1, 2]), "prel %d" % rng.randint(1, n)]
+        elif kind == "buf":
+            code += [rng.choice(["bput %d" % rng.randint(1, 3), "bget %d" % rng.randint(1, 3)]), "hold %d" % rng.choice([0, 1])]
+        elif kind == "oq":
+            code += [rng.choice(["qput %d" % rng.randint(1, 9), "qget"]), "hold %d" % rng.choice([0, 1])]
+        else:
+            code += [rng.choice(["pqput %d %d" % (rng.randint(1, 9), rng.randint(0, 2)), "pqget", "pqcancel %d" % rng.randint(1, 2)]), "hold %d" % rng.choice([0, 1])]
+        if rng.random() < 0.1: code.append("stop %d %d" % (rng.randint(1, np), rng.randint(1, 9)))
+    return code[:11]
 
 def gen_program(rng, pid, profile):
     pr = PROFILES[profile]
     np = rng.randint(*pr["np"])
     caps = dict(res=rng.randint(1, 2), pool=rng.randint(1, 3), buf=rng.choice([1, 2, 3]), oq=rng.choice([1, 2, -1]), pq=rng.choice([1, 2, -1]))
     ops = [o for o, w in pr["ops"].items() for _ in range(w)]
+    pkind = rng.choice(["res", "res", "pool", "pool", "buf", "oq", "pq"])
     lines = ["prog %d" % pid, "cap res=%d pool=%d buf=%d oq=%d pq=%d" % (caps["res"], caps["pool"], caps["buf"], caps["oq"], caps["pq"])]
     for p in range(1, np + 1):
         n = rng.randint(2, 7)
-        code = [gen_instr(rng, rng.choice(ops), np, p, caps) for _ in range(n)]
+        code = contend_script(rng, np, p, caps, pkind) if pr.get("contend") else [gen_instr(rng, rng.choice(ops), np, p, caps) for _ in range(n)]
         if pr.get("rec") and p == 1:
             objs = [1, 3, 4, 6, 8]
             o = rng.choice(objs)
